@@ -325,10 +325,12 @@ func (r *vc08Run) exec1(op *vc08Op, rng *rand.Rand) {
 				r.npages = p + 1
 			}
 		case "tobs":
-		case "tcx", "tci", "tcm", "tca":
+		case "tcx", "tci", "tcm", "tca", "tnb":
 			line = r.codec(op)
 		case "tlb":
 			tagLoad = r.loadBytes(op)
+		case "tdrop":
+			tagLoad = r.dropLeaves()
 		case "tpersist":
 			dirty, orphaned := r.tr.Updates()
 			r.tr.ResetUpdates()
@@ -489,7 +491,7 @@ func vc08Scenario(r *vc08Run, rng *rand.Rand, kind string, ls uint32, nb int, mo
 			// or (rarely) anyway — the model mirrors the code on gaps as well, the reference fold is skipped then
 			if mode == "contig" && r.contig {
 				r.exec(&vc08Op{Op: "tpersist"}, rng)
-				if nb <= 16 && rng.Intn(2) == 0 {
+				if nb <= 16 {
 					r.exec(r.genLoadBytes(rng), rng)
 				}
 				r.exec(&vc08Op{Op: "tload", Ls: ls}, rng)
@@ -508,7 +510,11 @@ func vc08Scenario(r *vc08Run, rng *rand.Rand, kind string, ls uint32, nb int, mo
 				r.exec(&vc08Op{Op: "trepl", Clock: p * ls, Refs: []vc08Ref{{Ref: vc08RandRef(rng)}}}, rng)
 			}
 		default:
-			r.exec(&vc08Op{Op: "tobs"}, rng)
+			if mode == "contig" && r.contig && r.ls < 2048 && rng.Intn(4) == 0 {
+				r.exec(&vc08Op{Op: "tdrop"}, rng)
+			} else {
+				r.exec(&vc08Op{Op: "tobs"}, rng)
+			}
 		}
 	}
 }
